@@ -23,6 +23,15 @@ def exact_std(a, b, y):
 
 def gen_instance(rng, switches, noisy):
     a, b = Q.gen_ab(rng)
+    r = rng.random()
+    if r < 0.12:
+        # coincidences between the paired instances: a support symmetric about 0 (the mirrored instance D' then has the
+        # very same (a, b, c, o) and differs only in its shape) ...
+        h = 0.5 * (b - a)
+        a, b = -h, h
+    elif r < 0.18:
+        # ... and the standard support itself (D and D0 coincide)
+        a, b = 0.0, 1.0
     c = Q.gen_c(rng)
     convex = rng.random() < 0.5
     s = Q.gen_s(rng, switches) if noisy else None
@@ -111,6 +120,10 @@ def run(seed, tier, replay=None):
             inp.update(s=C.fhex(s), o=C.fhex(o))
         rep.count("class=" + ("noisy" if noisy else "noiseless"))
         rep.count(f"c={c}")
+        if a == -b:
+            rep.count("support_symmetric_about_0")
+        if (a, b) == (0.0, 1.0):
+            rep.count("support=[0,1]")
         if noisy:
             m = k.get("margin", {})
             if m.get("D") is None or m.get("D0") is None:
